@@ -11,6 +11,7 @@ last record the real log actually wrote, so that one divergence is reported
 once (with a mechanism key) instead of cascading.
 """
 import collections
+import random
 import os
 import shutil
 
@@ -101,6 +102,14 @@ def gen_spec(rng, idx, quick):
             ctl[i] = "STOP" if running else None
         elif running and i % every == 0:
             ctl[i] = "RUN"
+    # a START sent to the logger while it is running (a `bid start` of a running logger): one more logger run
+    again = None
+    r2 = random.Random(repr((idx, nticks, every, restart)))
+    if r2.random() < 0.3:
+        cands = [i for i in range(1, nticks - 1) if ctl[i] == "RUN"]
+        if cands:
+            again = r2.choice(cands)
+            ctl[again] = "START"
 
     # writer steps
     seq = [0]
@@ -164,7 +173,7 @@ def gen_spec(rng, idx, quick):
             "lkw": {"reuse": rng.random() < 0.5, "flushPeriod": rng.choice([1.0, 2.0, 30.0])},
             "shares": shares, "logs": logs, "ticks": ticks,
             "gen": {"every": every, "placement": placement, "density": density, "same_p": same_p,
-                    "restart": restart}}
+                    "restart": restart, "start_while_running": again}}
 
 
 # ------------------------------------------------------------------ model
@@ -443,6 +452,8 @@ def run_case(ctx, spec, prefix):
         ctx.hit("cases_logger_period_3P")
     if gen["restart"]:
         ctx.hit("cases_restart")
+    if gen.get("start_while_running") is not None:
+        ctx.hit("cases_start_while_running")
     ctx.hit("logger_runs", len(runs))
     shutil.rmtree(os.path.join(prefix, spec["house"]), ignore_errors=True)
     return len(runs)
@@ -496,6 +507,7 @@ def run(ctx):
     ctx.extra["histories"] = total
     ctx.floor("distinct_nontrivial", total // 3)
     ctx.floor("logger_runs", total * 2)
+    ctx.floor("cases_start_while_running", total // 20)
     for rule in logx.RULES:
         ctx.floor("runs_%s" % rule, total * 2)
     for rule in ("once", "always", "update", "change", "streak", "deck"):
